@@ -247,6 +247,18 @@ def cases_murmur_grid(tier):
         for f in FILLS:
             for s in SEEDS:
                 yield {"len": n, "fill": f, "seed": s, "seed_default": 1}
+    # blocks whose intermediate values inside the mixing function are extreme: the 32-bit words w for which w*c1, the rotated
+    # product, or the second product equals 0, 1, 0x7fffffff, 0x80000000 or 0xffffffff (each has exactly one such w), placed
+    # at an aligned offset, at an unaligned one, and in front of a 1-3 byte tail
+    c1, c2 = 0xcc9e2d51, 0x1b873593
+    i1, i2 = pow(c1, -1, 1 << 32), pow(c2, -1, 1 << 32)
+    for v in (0, 1, 0x7fffffff, 0x80000000, 0xffffffff, 0xfffffffe, 0xffff0000, 0x0000ffff):
+        rot = ((v >> 15) | (v << 17)) & M32                       # the word whose left-rotation by 15 is v
+        for w in {(v * i1) & M32, (rot * i1) & M32, ((((v * i2) & M32) >> 15 | ((v * i2) & M32) << 17) & M32) * i1 & M32}:
+            wb = w.to_bytes(4, "little").hex()
+            for data in (wb, "70796369" + wb + "7461696c", "aa" + wb + "bbccdd", wb + wb, "00000000" + wb + "ff", wb + "0102"):
+                for s in (0, 0xFBA4C795, 0xffffffff):
+                    yield {"data": data, "seed": s}
     # inputs far longer than anything a filter element is, past the 2^16-word mark (the library's murmur3 takes seconds here)
     for n in [65536 * 4 + 11] + ([65536 * 4 - 1, 65536 * 4, 65536 * 8 + 3] if tier == "thorough" else []):
         yield {"len": n, "fill": "prng:0", "seed": 0xFBA4C795}
